@@ -38,8 +38,8 @@ enum EqvCond {
     Ids(usize),
     Tuples(usize, usize),
     Evals(usize),
-    And(Box<EqvCond>, Box<EqvCond>),
-    Or(Box<EqvCond>, Box<EqvCond>),
+    And(std::boxed::Box<EqvCond>, std::boxed::Box<EqvCond>),
+    Or(std::boxed::Box<EqvCond>, std::boxed::Box<EqvCond>),
 }
 
 fn eqv_fmt_tuple(t: &[u32]) -> String {
@@ -157,9 +157,9 @@ impl<M: EqvFacade> EqvInterp<M> {
                 let a = self.parse_cond(toks, pos)?;
                 let b = self.parse_cond(toks, pos)?;
                 if head == "and" {
-                    EqvCond::And(Box::new(a), Box::new(b))
+                    EqvCond::And(std::boxed::Box::new(a), std::boxed::Box::new(b))
                 } else {
-                    EqvCond::Or(Box::new(a), Box::new(b))
+                    EqvCond::Or(std::boxed::Box::new(a), std::boxed::Box::new(b))
                 }
             }
             other => panic!("bad cond token {}", other),
